@@ -236,3 +236,58 @@ def busy_expiry(seed=1, nkeys=48, readers=8):
         return problems, stats
     finally:
         srv.stop()
+
+
+def blocking_pop_hygiene():
+    """BLPOP / BRPOP naming keys that are missing, empty-then-deleted, or hold another type, alone and mixed with a real list:
+    the command answers (nil at its timeout, an element, or an error) within its timeout plus slack, and afterwards a write
+    on every key it named still completes - on the real binary over TCP (C13: multi-key BLPOP never deadlocks; C09)."""
+    srv = server.Server()
+    problems, stats = [], {"cases": 0}
+    try:
+        c = srv.client(timeout=10.0)
+        for s in (["SET", "bp-str", "v"], ["HSET", "bp-hsh", "f", "v"], ["SADD", "bp-set", "a"], ["ZADD", "bp-zs", "1", "a"], ["XADD", "bp-xs", "1-1", "f", "v"],
+                  ["RPUSH", "bp-lst", "x", "y", "z", "w"]):
+            c.cmd(*s)
+        cases = []
+        for cmd in ("BLPOP", "BRPOP"):
+            for k in ("bp-str", "bp-hsh", "bp-set", "bp-zs", "bp-xs", "bp-missing"):
+                cases.append([cmd, k, "1"])
+                cases.append([cmd, "bp-missing2", k, "1"])
+                cases.append([cmd, k, "bp-lst", "1"])
+        results = [None] * len(cases)
+
+        def one(i):
+            try:
+                cc = srv.client(timeout=10.0)
+                t0 = time.time()
+                r = cc.cmd(*cases[i], timeout=25.0)
+                results[i] = ("ok", r, time.time() - t0)
+                cc.close()
+            except Exception as e:
+                results[i] = ("timeout", repr(e), 10.0)
+
+        th = [threading.Thread(target=one, args=(i,)) for i in range(len(cases))]
+        for t in th:
+            t.start()
+        for t in th:
+            t.join(timeout=40)
+        stats["cases"] = len(cases)
+        for i, cs in enumerate(cases):
+            kind, r, dt = results[i] or ("timeout", None, 40)
+            if kind != "ok":
+                problems.append({"kind": "hang", "argv": cs, "detail": "%s with a 1 s timeout did not answer within 25 s" % " ".join(cs)})
+        if not srv.alive():
+            problems.append({"kind": "process-death", "argv": None, "detail": srv.tail(1200)})
+            return problems, stats
+        probe = srv.client(timeout=10.0)
+        for k in ("bp-str", "bp-hsh", "bp-set", "bp-zs", "bp-xs", "bp-missing", "bp-missing2", "bp-lst"):
+            try:
+                probe.cmd("DEL", k, timeout=5.0)
+            except Exception:
+                problems.append({"kind": "wedged-key", "argv": ["DEL", k], "detail": "DEL %s after the blocking pops: no reply within 5 s (lock stripe left held)" % k})
+                probe.close()
+                probe = srv.client(timeout=10.0)
+        return problems, stats
+    finally:
+        srv.stop()
